@@ -553,6 +553,20 @@ theorem localTx_some {db : Db} (hok : DbOk db) {stmts : List Stmt} {db' : Db} {v
         simp only [List.mem_filter, decide_eq_true_eq] at ha hb
         exact hab ⟨ha.2.1, ha.2.2.1⟩ ⟨hb.2.1, hb.2.2.1⟩
 
+/-- the acknowledged version is the successor of the store's version (no hypothesis on the store) -/
+theorem localTx_ver {db : Db} {stmts : List Stmt} {db' : Db} {ver : Nat} {chs : List Chg}
+    (h : localTx db stmts = .ok (db', some (ver, chs))) : ver = db.dbv + 1 ∧ db'.dbv = ver := by
+  unfold localTx at h
+  simp only [] at h
+  split at h
+  · cases h
+  · split at h
+    · cases h
+    · simp only [Except.ok.injEq, Prod.mk.injEq, Option.some.injEq] at h
+      obtain ⟨hdb, hver, _⟩ := h
+      subst hdb hver
+      exact ⟨rfl, rfl⟩
+
 theorem localTx_none {db : Db} {stmts : List Stmt} {db' : Db}
     (h : localTx db stmts = .ok (db', none)) : db' = db := by
   unfold localTx at h
